@@ -13,7 +13,7 @@ PROPERTY = 'C16'
 RULE = ('Formula without unbounded future operators (bounded future, next, all past operators, Boolean, arithmetic) x trace w2 x cut '
         'point m; w1 = w2[0..m). Oracle (metamorphic): offline evaluate(w1)[t] == evaluate(w2)[t] for all t with t + h < |w1|, h = '
         'horizon computed by the harness (next counts 1). Dense-time lane: w1 = w2 restricted to [t0,T], compared at all cell starts and '
-        'midpoints t with t + h < T. Lane verylong: windows of 33..129 samples, few distinct values (ties), prefix ending shortly after the first windows are complete. Non-trivial = h >= 1, a settled t exists and some unsettled t differs between the runs (padding '
+        'midpoints t with t + h < T. Lane giant: windows of 200..1100 samples (around 256, 512, 1024) on mostly flat traces with isolated extreme samples. Lane verylong: windows of 33..129 samples, few distinct values (ties), prefix ending shortly after the first windows are complete. Non-trivial = h >= 1, a settled t exists and some unsettled t differs between the runs (padding '
         'happened), or a pure-past formula with m < |w2|; distinct = distinct (formula, w2, m) digests.')
 
 ASSUMPTIONS = [
@@ -50,6 +50,18 @@ def verylong_cases(draw, tier):
     n = m + draw(st.integers(1, 12))
     vals = st.sampled_from([0.0, 1.0, -1.0, 2.0, 3.0, -3.0])
     return {'formula': f, 'vars': vs, 'trace': {v: draw(st.lists(vals, min_size=n, max_size=n)) for v in vs}, 'cut': m}
+
+
+@st.composite
+def giant_cut_cases(draw, tier):
+    """Windows of 200..1100 samples; the prefix ends shortly after the first windows are complete (or before)."""
+    from ..common import giant_cases
+    c = draw(giant_cases(F.TUN_PAST + F.TUN_FUT, ('since', 'until'), lengths='long'))
+    n = len(c['trace']['x'])
+    h = F.horizon(from_json(c['formula'])) or 0
+    lo = min(n - 1, max(1, h - 2))
+    c['cut'] = draw(st.sampled_from(sorted(set(min(n - 1, max(1, x)) for x in (lo, h, h + 1, h + 2, h + 5, h + 40, n - 1, n - 2, n // 2)))))
+    return c
 
 
 def check(case):
@@ -179,6 +191,7 @@ def dense_candidates(case):
 
 
 LANES = [
+    Lane('giant', lambda tier: giant_cut_cases(tier), check, 60, 600, None),
     Lane('verylong', lambda tier: verylong_cases(tier), check, 200, 3000, candidates),
     Lane('discrete', lambda tier: cases(tier), check, 6000, 80000, candidates),
     Lane('dense', lambda tier: dense_cases(tier), check_dense, 3000, 40000, dense_candidates),
